@@ -9,6 +9,7 @@ import (
 	"os"
 	"os/exec"
 	"runtime/debug"
+	"sort"
 	"strconv"
 	"strings"
 	"time"
@@ -102,6 +103,13 @@ func runFields(sec *vh.Section, cases []fieldsCase, verbose bool) {
 		if impl[i][2].Val != mc {
 			res.Mismatch(vh.Mismatch{Section: "fields", Function: "field.Check", Input: c, Impl: impl[i][2].Val, Model: mc})
 		}
+		// SPEC: on a list an ingestion path produced, Value(name) is the value of the first KEY equal to name, "" when there is none
+		if c.WF && impl[i][0].Kind == "ok" && impl[i][2].Val == "1" {
+			if want := vh.HxS(refValue(string(vh.UnHx(c.Fields)), string(vh.UnHx(c.Name)))); impl[i][0].Val != want {
+				res.SpecFail(vh.SpecFailure{Section: "fields", Kind: "wrong-field-value", Input: c, Impl: impl[i][0].Val, Spec: want, Model: mv, ImplEqModel: mv == impl[i][0].line(),
+					What: "Fields.Value(name) is not the value of the first field whose NAME is name (a value or a later item was taken for it)"})
+			}
+		}
 		// SPEC: what an ingestion path produced must be readable
 		if c.WF {
 			for k, nm := range []string{"Value", "AsKVString"} {
@@ -127,6 +135,31 @@ func runFields(sec *vh.Section, cases []fieldsCase, verbose bool) {
 			}
 		}
 	}
+}
+
+// listItems walks a well-formed binary field list
+func listItems(f string) []string {
+	var its []string
+	for idx := 0; idx < len(f); {
+		n := int(f[idx])
+		if idx+1+n > len(f) {
+			break
+		}
+		its = append(its, f[idx+1:idx+1+n])
+		idx += n + 1
+	}
+	return its
+}
+
+// refValue is the reference meaning of Fields.Value on a well-formed list
+func refValue(f, name string) string {
+	its := listItems(f)
+	for i := 0; i+1 < len(its); i += 2 {
+		if its[i] == name {
+			return its[i+1]
+		}
+	}
+	return ""
 }
 
 func kvTexts(kv []string) [][]byte {
@@ -223,6 +256,13 @@ func sectionFields(rng *vh.Rng) {
 				}
 			}
 			cases = append(cases, fieldsCase{vh.HxS(string(f)), vh.HxS(rng.PickS(names)), true, kvs2})
+			// names that occur in the list itself: every key, every value, in particular the LAST value
+			if _, cerr := field.Check(string(f)); cerr == nil {
+				if its := listItems(string(f)); len(its) > 0 {
+					cases = append(cases, fieldsCase{vh.HxS(string(f)), vh.HxS(its[len(its)-1]), true, kvs2})
+					cases = append(cases, fieldsCase{vh.HxS(string(f)), vh.HxS(its[rng.Intn(len(its))]), true, kvs2})
+				}
+			}
 			if i < 2 {
 				res.Sample(map[string]interface{}{"section": "fields", "kv": kv, "fields": vh.HxS(string(f))})
 			}
@@ -491,6 +531,10 @@ var sampleEvents = []*model.LogEvent{
 	{Timestamp: 1568000000000000000, Msg: []byte("hello world"), Fields: field.Parse("a=b,c=d")},
 	{Timestamp: -1, Msg: []byte("\xff\x00\xef\xbf\xbd"), Fields: field.Parse(`k="x,y"`)},
 	{Timestamp: 1<<63 - 1, Msg: []byte(strings.Repeat("m", 300)), Fields: field.Parse("f=" + strings.Repeat("v", 255))},
+	// values that are spelled like field names used in filters and formats, in the last and in an inner position
+	{Timestamp: 5, Msg: []byte("lvl"), Fields: field.Parse("kind=level")},
+	{Timestamp: 6, Msg: []byte("lvl2"), Fields: field.Parse("kind=level,x=y")},
+	{Timestamp: 7, Msg: []byte("lvl3"), Fields: field.Parse("f=f,a=zz")},
 }
 
 func implRobust(c robustCase) callRes {
@@ -594,7 +638,7 @@ var whereMode bool // generation is single-threaded: identifiers valid in a WHER
 
 func genIdent(rng *vh.Rng) string {
 	if whereMode {
-		return rng.PickS([]string{"msg", "ts", "fields:f", "lower(msg)", "upper(fields:a)", "fields:\"a b\"", "msg", "fields:zz"})
+		return rng.PickS([]string{"msg", "ts", "fields:f", "lower(msg)", "upper(fields:a)", "fields:\"a b\"", "msg", "fields:zz", "fields:level", "fields:kind", "fields:x", "fields:y", "fields:b", "fields:d"})
 	}
 	return rng.PickS([]string{"a", "name", "msg", "ts", "fields:f", "lower(msg)", "upper(name)", "x1", "_", "fields:\"a b\""})
 }
@@ -798,7 +842,7 @@ func sectionRobust(rng *vh.Rng) {
 			}
 			add("kv", f)
 		case 4:
-			f := rng.PickS([]string{"{msg}", "{msg.json()}", "{ts}", "{ts.format(15:04:05.000)}", "{vars}", "{vars:a}", "{VARS:İ}", "a{{b", "{}", "{ msg }", "{ts.format()}", "{vars:}", "{ts.format(2006", "é{msg}\xff", "{\xff}", "{ts.format(\xff)}", "{msg", "}{", "{vars:f}{vars:zz}"})
+			f := rng.PickS([]string{"{msg}", "{msg.json()}", "{ts}", "{ts.format(15:04:05.000)}", "{vars}", "{vars:a}", "{VARS:İ}", "a{{b", "{}", "{ msg }", "{ts.format()}", "{vars:}", "{ts.format(2006", "é{msg}\xff", "{\xff}", "{ts.format(\xff)}", "{msg", "}{", "{vars:f}{vars:zz}", "{vars:level}", "{vars:kind}|{vars:y}", "{vars:d}{vars:b}"})
 			if rng.Bool() {
 				f = mutateText(rng, f+rng.PickS([]string{"", "{msg}", " x "}))
 			}
@@ -855,7 +899,8 @@ type e2eBatch struct {
 	Reqs []e2eReq `json:"reqs"`
 }
 type e2eOut struct {
-	Answers []string `json:"answers"` // per request: ok | operr | transport-error | timeout
+	Readback []string `json:"readback"` // acknowledged writes to rb=… partitions that could not be read back completely
+	Answers  []string `json:"answers"`  // per request: ok | operr | transport-error | timeout
 	Alive   bool     `json:"alive"`
 	Note    string   `json:"note"`
 }
@@ -922,6 +967,10 @@ func runE2EBatch(sec *vh.Section, b e2eBatch, verbose bool) {
 			Spec: "the server answers every request and is alive afterwards", What: "a request ended the server process or left it unable to answer (last request sent: the last of the recorded batch)"})
 		return
 	}
+	for _, rb := range out.Readback {
+		res.SpecFail(vh.SpecFailure{Section: "e2e", Kind: "acknowledged-write-unreadable", Input: b, Impl: rb, Spec: "every event of an acknowledged write is returned by a query of its partition",
+			What: "a Write was acknowledged but reading the partition back fails or does not return its events (a stored record that no later read can decode)"})
+	}
 	for i, a := range out.Answers {
 		if a == "timeout" || a == "transport-error" {
 			res.SpecFail(vh.SpecFailure{Section: "e2e", Kind: "no-answer", Input: e2eBatch{Reqs: b.Reqs[:i+1]}, Impl: a, Spec: "a result or an error",
@@ -940,6 +989,36 @@ func sectionE2E(rng *vh.Rng) {
 	}
 	for bi := 0; bi < batches; bi++ {
 		var b e2eBatch
+		// read-back family: writes to partitions rb=<n> (some with field blocks around and above 16384 bytes), then filters that
+		// name fields — including names that are spelled like stored VALUES — evaluated on those partitions
+		for k := 0; k < 6; k++ {
+			tags := fmt.Sprintf("rb=%dx%d", bi, k)
+			var evs []e2eE
+			var aevs []*api.LogEvent
+			for j := rng.Range(1, 3); j > 0; j-- {
+				flds := fieldPool(rng)
+				if k == 0 || rng.Chance(1, 5) {
+					var sb strings.Builder
+					for x := rng.PickI([]int{64, 65, 66, 70}); x > 0; x-- {
+						fmt.Fprintf(&sb, "f%d=%s,", x, strings.Repeat("v", rng.PickI([]int{249, 250, 251})))
+					}
+					flds = sb.String() + "kind=level"
+				}
+				e := e2eE{rng.PickI64(tsPool), rng.PickS(msgPool), flds}
+				evs = append(evs, e)
+				aevs = append(aevs, &api.LogEvent{Timestamp: e.Ts, Message: e.Msg, Fields: e.Fields})
+			}
+			wf := rng.PickS([]string{"", "kind=level", "x=y,kind=level", "a=b"})
+			if safeWriteBody(rpc.VerifC13EncodeWritePacket(tags, wf, aevs)) {
+				b.Reqs = append(b.Reqs, e2eReq{Kind: "write", Tags: tags, Flds: wf, Evs: evs})
+				for j := 0; j < 3; j++ {
+					whereMode = true
+					w := genExpr(rng, 2)
+					whereMode = false
+					b.Reqs = append(b.Reqs, e2eReq{Kind: "query", Query: "select from " + tags + " where " + w + " limit 50", Lim: 50})
+				}
+			}
+		}
 		for len(b.Reqs) < 60 {
 			switch rng.Intn(8) {
 			case 0, 1:
@@ -1058,6 +1137,7 @@ func childE2E(in, logf, outf, dir string) {
 	}
 	raw := rrpc.NewClient(conn)
 	lf, _ := os.Create(logf)
+	acked := map[string]int{}
 	for i, r := range b.Reqs {
 		fmt.Fprintf(lf, "%d\n", i)
 		lf.Sync()
@@ -1074,6 +1154,7 @@ func childE2E(in, logf, outf, dir string) {
 			terr = srv.Client.Write(ctx, r.Tags, r.Flds, evs, &wr)
 			operr = wr.Err
 		case "query":
+			srv.FlushWait()
 			var qr api.QueryResult
 			terr = srv.Client.Query(ctx, &api.QueryRequest{Query: r.Query, Pos: r.Pos, Offset: r.Off, Limit: r.Lim}, &qr)
 			operr = qr.Err
@@ -1102,7 +1183,22 @@ func childE2E(in, logf, outf, dir string) {
 		}
 		cancel()
 		out.Answers = append(out.Answers, ans)
+		if r.Kind == "write" && ans == "ok" && strings.HasPrefix(r.Tags, "rb=") {
+			acked[r.Tags] += len(r.Evs)
+		}
 	}
+	// read-back: every acknowledged write to a rb=… partition must be served completely
+	srv.FlushWait()
+	for tags, n := range acked {
+		ctx, cancel := context.WithTimeout(context.Background(), 10*time.Second)
+		var qr api.QueryResult
+		err := srv.Client.Query(ctx, &api.QueryRequest{Query: "select from " + tags + " limit 1000", Limit: 1000}, &qr)
+		cancel()
+		if err != nil || qr.Err != nil || len(qr.Events) != n {
+			out.Readback = append(out.Readback, fmt.Sprintf("%s: %d events acknowledged, query returned %d, err=%v operr=%v", tags, n, len(qr.Events), err, qr.Err))
+		}
+	}
+	sort.Strings(out.Readback)
 	// liveness: a fresh write and a query for it
 	ctx, cancel := context.WithTimeout(context.Background(), 10*time.Second)
 	defer cancel()
